@@ -14,8 +14,8 @@ import re
 import string
 from typing import Dict, FrozenSet, List, Optional, Set, Tuple
 
-from ..cfg import CFG
-from ..model import AnchorError, Class, Func, Project, UnknownIdiom, short
+from ..cfg import CFG, cfg_of as _cfg_of
+from ..model import AnchorError, Class, Func, Project, UnknownIdiom, short, walk_no_nested
 from .common import walk_self
 
 MODULE = 'falcon.routing.compiled'
@@ -938,6 +938,41 @@ def fstring_as_format(e: ast.JoinedStr, where: str) -> ast.Call:
     return call
 
 
+def percent_as_format(e: ast.BinOp, where: str) -> ast.Call:
+    """The `'<template>'.format(<values>)` call that renders the same text as `'<template>' % <values>`: `%s` / `%d` /
+    `%i` become `{k}`, `%r` / `%a` become `{k!r}` / `{k!a}`, `%%` a percent sign, literal braces are doubled.  (`%d` of
+    an int and `{}` of it are the same digits; where `%d` would raise for a non-int nothing is rendered at all.)
+    Flags, widths, precisions and mapping keys are not read (UnknownIdiom)."""
+    t = e.left.value
+    vals = list(e.right.elts) if isinstance(e.right, ast.Tuple) else [e.right]
+    tmpl, k, i = '', 0, 0
+    while i < len(t):
+        ch = t[i]
+        if ch != '%':
+            tmpl += {'{': '{{', '}': '}}'}.get(ch, ch)
+            i += 1
+            continue
+        c = t[i + 1] if i + 1 < len(t) else ''
+        if c == '%':
+            tmpl += '%'
+        elif c in 'sdi':
+            tmpl += '{%d}' % k
+            k += 1
+        elif c in 'ra':
+            tmpl += '{%d!%s}' % (k, c)
+            k += 1
+        else:
+            raise UnknownIdiom('%s: %%-conversion in %s' % (where, short(e, 60)))
+        i += 2
+    if k != len(vals) or any(isinstance(v, ast.Starred) for v in vals):
+        raise UnknownIdiom('%s: %%-format arguments of %s' % (where, short(e, 60)))
+    call = ast.Call(func=ast.Attribute(value=ast.Constant(tmpl), attr='format', ctx=ast.Load()), args=vals, keywords=[])
+    ast.copy_location(call, e)
+    ast.copy_location(call.func, e)
+    ast.copy_location(call.func.value, e)
+    return call
+
+
 class CxClass:
     """What one construct class contributes to the generated finder."""
 
@@ -1034,6 +1069,8 @@ class CxClass:
                 raise UnknownIdiom('%s: name %s' % (where, e.id))
             if isinstance(e, ast.JoinedStr):
                 return ev(fstring_as_format(e, where))   # f'..{x}..' == '..{0}..'.format(x)
+            if isinstance(e, ast.BinOp) and isinstance(e.op, ast.Mod) and isinstance(e.left, ast.Constant) and isinstance(e.left.value, str):
+                return ev(percent_as_format(e, where))   # '..%s..' % (x,) == '..{0}..'.format(x)
             if isinstance(e, ast.BinOp) and isinstance(e.op, ast.Mult):
                 # indentation: <whitespace constant> * <int expr>
                 for side in (e.left, e.right):
@@ -1228,9 +1265,9 @@ class CxModel:
         if not self.classes:
             raise AnchorError('no _Cx construct classes found in %s' % MODULE)
         # header of the generated function
-        comp = project.func(ROUTER + '._compile')
-        headers = [n.value for n in walk_self(comp.node) if isinstance(n, ast.Constant) and isinstance(n.value, str)
-                   and re.match(r'\s*def\s+\w+\s*\(', n.value)]
+        comp = aliased_view(project, project.func(ROUTER + '._compile'))      # (`generate = self._generate_ast; generate(...)` is a call of the generator)
+        self.compile_func = comp
+        headers = [v for v in self.compile_strings() if re.match(r'\s*def\s+\w+\s*\(', v)]
         if len(headers) != 1:
             raise AnchorError('%s: expected one `def ...(` header literal, found %d' % (comp.qual, len(headers)))
         self.header = headers[0]
@@ -1243,6 +1280,24 @@ class CxModel:
         if fn.args.vararg or fn.args.kwarg or fn.args.kwonlyargs or fn.args.defaults:
             raise UnknownIdiom('%s: generated signature %r' % (comp.qual, self.header))
         self.compile_func = comp
+
+    def compile_strings(self) -> List[str]:
+        """The string literals of `_compile`, in source order: the constants written in the function and the
+        module-level / class-level constants it names (a header or prologue line hoisted into a named constant is
+        still the text the function emits)."""
+        comp = self.compile_func
+        out: List[str] = []
+        bound = {x.id for x in walk_self(comp.node) if isinstance(x, ast.Name) and isinstance(x.ctx, (ast.Store, ast.Del))} | set(comp.params())
+        nodes = [n for n in walk_self(comp.node) if isinstance(n, (ast.Constant, ast.Name, ast.Attribute)) and hasattr(n, 'lineno')]
+        for n in sorted(nodes, key=lambda n: (n.lineno, n.col_offset)):
+            if isinstance(n, ast.Constant):
+                if isinstance(n.value, str):
+                    out.append(n.value)
+            elif isinstance(getattr(n, 'ctx', None), ast.Load) and not (isinstance(n, ast.Name) and n.id in bound):
+                v = self.p.fold(comp.module, n, comp.cls, comp)
+                if isinstance(v, str):
+                    out.append(v)
+        return out
 
     def of(self, t) -> Optional[CxClass]:
         if isinstance(t, Class):
@@ -1693,30 +1748,56 @@ class TemplateText:
         return Txt((), ('group %r of the field expression, required to be a key of self.%s' % (g, v[1]),), deps=['member:' + g])
 
     # ------------------------------------------------------------ whitespace outside field expressions
+    def _is_split(self, v) -> bool:
+        """`<template parameter of add_route>[.strip()...].split('/')`."""
+        f = self.add_route
+        if not (isinstance(v, ast.Call) and isinstance(v.func, ast.Attribute) and v.func.attr == 'split' and len(v.args) == 1
+                and isinstance(v.args[0], ast.Constant) and v.args[0].value == '/'):
+            return False
+        root = v.func.value
+        while isinstance(root, (ast.Call, ast.Attribute)):
+            root = root.func if isinstance(root, ast.Call) else root.value
+        return isinstance(root, ast.Name) and root.id in f.params()
+
+    def _split_locals(self) -> Set[str]:
+        out = set()
+        for n in walk_self(self.add_route.node):
+            if isinstance(n, (ast.Assign, ast.AnnAssign)) and n.value is not None and self._is_split(n.value):
+                for t in (n.targets if isinstance(n, ast.Assign) else [n.target]):
+                    if isinstance(t, ast.Name):
+                        out.add(t.id)
+        return out
+
     def _segment_vars(self) -> Set[str]:
         """Loop variables of add_route that run over the '/'-separated pieces of the template parameter."""
         f = self.add_route
-
-        def is_split(v) -> bool:
-            if not (isinstance(v, ast.Call) and isinstance(v.func, ast.Attribute) and v.func.attr == 'split' and len(v.args) == 1
-                    and isinstance(v.args[0], ast.Constant) and v.args[0].value == '/'):
-                return False
-            root = v.func.value
-            while isinstance(root, (ast.Call, ast.Attribute)):
-                root = root.func if isinstance(root, ast.Call) else root.value
-            return isinstance(root, ast.Name) and root.id in f.params()
-
-        split_locals = set()
-        for n in walk_self(f.node):
-            if isinstance(n, (ast.Assign, ast.AnnAssign)) and n.value is not None and is_split(n.value):
-                for t in (n.targets if isinstance(n, ast.Assign) else [n.target]):
-                    if isinstance(t, ast.Name):
-                        split_locals.add(t.id)
+        split_locals = self._split_locals()
         out = set()
         for n in walk_self(f.node):
             if isinstance(n, ast.For) and isinstance(n.target, ast.Name) and (
-                    is_split(n.iter) or (isinstance(n.iter, ast.Name) and n.iter.id in split_locals)):
+                    self._is_split(n.iter) or (isinstance(n.iter, ast.Name) and n.iter.id in split_locals)):
                 out.add(n.target.id)
+        return out
+
+    def _segment_loops(self) -> List[Tuple[Func, Set[str]]]:
+        """(function, its loop variables that run over the '/'-separated pieces of the template): add_route itself, and
+        a method of the same class that add_route hands the split list to (`self._validate_template(path)`) and that
+        walks this parameter, never re-bound, with a plain `for`."""
+        f = self.add_route
+        out = [(f, self._segment_vars())]
+        split_locals = self._split_locals()
+        for c in walk_self(f.node):
+            if not (isinstance(c, ast.Call) and not c.keywords):
+                continue
+            h = self.p.callee(f, c)
+            if not isinstance(h, Func) or h is f or h is self.validator or h.cls is None or h.cls is not f.cls:
+                continue
+            names = [x for x in h.params() if x not in ('self', 'cls')]
+            fed = {prm for prm, a in zip(names, c.args) if self._is_split(a) or (isinstance(a, ast.Name) and a.id in split_locals)}
+            fed = {prm for prm in fed if not any(isinstance(x, ast.Name) and x.id == prm and isinstance(x.ctx, (ast.Store, ast.Del)) for x in walk_self(h.node))}
+            if fed:
+                out.append((h, {n.target.id for n in walk_self(h.node) if isinstance(n, ast.For) and isinstance(n.target, ast.Name)
+                                and isinstance(n.iter, ast.Name) and n.iter.id in fed}))
         return out
 
     def _piece_kind(self, f: Func, name: str) -> Optional[str]:
@@ -1728,13 +1809,14 @@ class TemplateText:
                 return 'template'
             return None
         if f is self.validator:
-            # the validator's parameter that add_route feeds with a segment
+            # the validator's parameter that add_route (or the method it hands the split list to) feeds with a segment
             names = [x for x in f.params() if x not in ('self', 'cls')]
-            for c in walk_self(self.add_route.node):
-                if isinstance(c, ast.Call) and self.p.callee(self.add_route, c) is f and not c.keywords:
-                    for prm, a in zip(names, c.args):
-                        if prm == name and isinstance(a, ast.Name) and a.id in self._segment_vars():
-                            return 'segment'
+            for (g, segvars) in self._segment_loops():
+                for c in walk_self(g.node):
+                    if isinstance(c, ast.Call) and self.p.callee(g, c) is f and not c.keywords:
+                        for prm, a in zip(names, c.args):
+                            if prm == name and isinstance(a, ast.Name) and a.id in segvars:
+                                return 'segment'
         return None
 
     def field_spans_slash(self) -> Optional[str]:
@@ -1765,13 +1847,24 @@ class TemplateText:
                 if not (isinstance(n, ast.If) and n.body and isinstance(n.body[-1], ast.Raise)):
                     continue
                 inside = [c for c in subs if any(x is c for x in ast.walk(n.test))]
+                # a local bound exactly once to the substitution and named in the test stands for it
+                #   (`without_fields = <FIELD>.sub('{FIELD}', template)`; `if re.search(r'\s', without_fields): raise`)
+                via = {}
+                for x in ast.walk(n.test):
+                    if isinstance(x, ast.Name) and isinstance(x.ctx, ast.Load):
+                        bs = [b for b in walk_self(f.node) if isinstance(b, (ast.Assign, ast.AnnAssign, ast.AugAssign, ast.For, ast.NamedExpr, ast.With))
+                              and any(isinstance(y, ast.Name) and y.id == x.id and isinstance(y.ctx, ast.Store) for y in ast.walk(b))]
+                        if len(bs) == 1 and isinstance(bs[0], (ast.Assign, ast.AnnAssign)) and any(bs[0].value is c for c in subs) \
+                                and x.id not in f.params():
+                            via[id(x)] = bs[0].value
+                            inside.append(bs[0].value)
                 if not inside:
                     continue
                 used.update(id(c) for c in inside)
                 t = n.test
                 kind = None
                 if isinstance(t, ast.Call) and isinstance(t.func, ast.Attribute) and t.func.attr == 'search' and len(t.args) == 2 \
-                        and t.args[1] is inside[0] and len(inside[0].args) == 2 and isinstance(inside[0].args[1], ast.Name):
+                        and (t.args[1] is inside[0] or via.get(id(t.args[1])) is inside[0]) and len(inside[0].args) == 2 and isinstance(inside[0].args[1], ast.Name):
                     pat = self.p.fold(self.mod, t.args[0], None, f)
                     repl = self.p.fold(self.mod, inside[0].args[0], None, f)
                     if isinstance(pat, str) and isinstance(repl, str):
@@ -3333,3 +3426,357 @@ def path_provenance(project: Project, f: Func, param: str):
             return super()._call(c, nid)
 
     return PathProvenance(project, f, param)
+
+
+# ---------------------------------------------------------------------------
+# Function views: a function as its statements read once local aliases of attribute chains and calls of plain helpers
+# are written out (used by C01 and C02; nothing here knows about a property)
+# ---------------------------------------------------------------------------
+
+def _plain_helper(p, f: Func, call: ast.Call, mode: str) -> Optional[Func]:
+    """The callee of `call` when it is a helper whose body can stand in place of the call: a module-level function of
+    f's own module, a method of f's own class called as `self.h(...)`, or a nested def of f / of the function f itself
+    is nested in; synchronous, undecorated, plain positional-or-keyword parameters, no nested defs, no
+    yield/await/global/nonlocal.  mode 'stmt' (the call is a statement): it may only return by falling off its end
+    (or a bare trailing `return`); 'tail' (operand of `return h(...)`): its own returns become the caller's; 'value'
+    (the call is part of an expression): its only `return` is its last statement and hands back a value."""
+    if any(isinstance(a, ast.Starred) for a in call.args) or any(k.arg is None for k in call.keywords):
+        return None
+    origin = getattr(f, 'origin', f)
+    h = p.callee(f, call)
+    if not isinstance(h, Func) or h is f or h is origin or h.is_async:
+        return None
+    a = h.node.args
+    names = [x.arg for x in a.args]
+    bound_self = False
+    if h.cls is not None:
+        if f.cls is None or h.cls is not f.cls or not (isinstance(call.func, ast.Attribute) and isinstance(call.func.value, ast.Name)
+                                                       and f.params() and call.func.value.id == f.params()[0]):
+            return None
+        if h.decorators or not names:
+            return None
+        bound_self = True
+    else:
+        if h.decorators or h.module is not f.module:
+            return None
+        if h.parent is not None and h.parent is not f.parent and h.parent is not origin:
+            return None
+        if not isinstance(call.func, ast.Name):
+            return None
+    if a.vararg or a.kwarg or a.kwonlyargs or a.posonlyargs:
+        return None
+    body = h.node.body
+    for x in ast.walk(h.node):
+        if x is not h.node and isinstance(x, (ast.FunctionDef, ast.AsyncFunctionDef, ast.Lambda, ast.ClassDef)):
+            return None
+        if isinstance(x, (ast.Yield, ast.YieldFrom, ast.Await, ast.Global, ast.Nonlocal)):
+            return None
+        if isinstance(x, ast.Return):
+            if mode == 'stmt' and not (x.value is None and body and x is body[-1]):
+                return None
+            if mode == 'value' and not (x.value is not None and body and x is body[-1]):
+                return None
+    if mode == 'value' and not (body and isinstance(body[-1], ast.Return)):
+        return None
+    formal = names[1:] if bound_self else names
+    given = set(formal[:len(call.args)]) | {k.arg for k in call.keywords}
+    if len(call.args) > len(formal) or not given <= set(formal) or len(given) != len(call.args) + len(call.keywords):
+        return None
+    if mode == 'value' and not all(isinstance(x, (ast.Name, ast.Constant)) for x in list(call.args) + [k.value for k in call.keywords]):
+        return None     # (hoisting the call in front of its statement must not reorder anything that could have an effect)
+    n_def = len(a.defaults)
+    for i, nm in enumerate(names):
+        if nm not in given and i < len(names) - n_def and not (bound_self and i == 0):
+            return None
+    return h
+
+
+def _attr_aliases(f: Func) -> Dict[str, ast.AST]:
+    """Locals of f that are plain names for an attribute chain: `x = r.a.b` where x is bound exactly once (no closure
+    re-binds it), the root r keeps its meaning wherever x can be read (a parameter never re-bound, a name the function
+    never binds, or the target of the one `for` whose body holds the binding) and the function never stores to an
+    attribute called like a link of the chain.  Reading x is then reading r.a.b (`cls = self.__class__`,
+    `fallbacks = self._sink_and_static_routes`, `set_header = resp.set_header`, `match = matcher.match`)."""
+    node = f.node
+    stores: Dict[str, int] = {}
+    attr_stores: Set[str] = set()
+    barred: Set[str] = set()
+    for x in ast.walk(node):
+        if isinstance(x, ast.Name) and isinstance(x.ctx, (ast.Store, ast.Del)):
+            stores[x.id] = stores.get(x.id, 0) + 1
+        elif isinstance(x, ast.Attribute) and isinstance(x.ctx, (ast.Store, ast.Del)):
+            attr_stores.add(x.attr)
+        elif isinstance(x, (ast.Global, ast.Nonlocal)):
+            barred.update(x.names)
+        elif isinstance(x, ast.ExceptHandler) and x.name:
+            stores[x.name] = stores.get(x.name, 0) + 1
+        elif isinstance(x, (ast.Import, ast.ImportFrom)):
+            for al in x.names:
+                nm = (al.asname or al.name).split('.')[0]
+                stores[nm] = stores.get(nm, 0) + 1
+        elif isinstance(x, (ast.FunctionDef, ast.AsyncFunctionDef, ast.ClassDef)) and x is not node:
+            stores[x.name] = stores.get(x.name, 0) + 1
+    params = set(f.params())
+    for_of: Dict[str, ast.AST] = {}
+    for x in walk_self(node):
+        if isinstance(x, (ast.For, ast.AsyncFor)):
+            for t in ast.walk(x.target):
+                if isinstance(t, ast.Name):
+                    for_of[t.id] = x
+    out: Dict[str, ast.AST] = {}
+    for st in walk_self(node):
+        if isinstance(st, ast.Assign) and len(st.targets) == 1 and isinstance(st.targets[0], ast.Name):
+            tgt, v = st.targets[0].id, st.value
+        elif isinstance(st, ast.AnnAssign) and isinstance(st.target, ast.Name) and st.value is not None:
+            tgt, v = st.target.id, st.value
+        else:
+            continue
+        if tgt in params or tgt in barred or stores.get(tgt) != 1 or not isinstance(v, ast.Attribute):
+            continue
+        chain, root = [], v
+        while isinstance(root, ast.Attribute):
+            chain.append(root.attr)
+            root = root.value
+        if not isinstance(root, ast.Name) or root.id == tgt or root.id in barred or set(chain) & attr_stores:
+            continue
+        r = root.id
+        if r in params:
+            ok = stores.get(r, 0) == 0
+        elif stores.get(r, 0) == 0:
+            ok = True
+        else:
+            loop = for_of.get(r)
+            ok = stores.get(r) == 1 and loop is not None and any(y is st for b in loop.body for y in ast.walk(b))
+        if ok:
+            out[tgt] = v
+    return out
+
+
+class _NoNested(ast.NodeTransformer):
+    """A transformer that leaves nested defs / lambdas / classes alone."""
+
+    def __init__(self, root):
+        self._root = root
+
+    def visit_FunctionDef(self, n):
+        return self.generic_visit(n) if n is self._root else n
+
+    visit_AsyncFunctionDef = visit_FunctionDef
+
+    def visit_Lambda(self, n):
+        return n
+
+    def visit_ClassDef(self, n):
+        return n
+
+
+def aliased_view(p, f: Func) -> Func:
+    """`f` with every local that only names an attribute chain (see _attr_aliases) replaced by the chain where it is
+    read (`f` itself when it has none)."""
+    import copy as _copy
+    cache = p.__dict__.setdefault('_c02_alias_views', {})
+    key = (f.qual, id(f.node))
+    if key in cache:
+        return cache[key]
+    g = f
+    aliases = _attr_aliases(f)
+    if aliases:
+        class Al(_NoNested):
+            def visit_Name(self, n):
+                if isinstance(n.ctx, ast.Load) and n.id in aliases:
+                    return ast.copy_location(_copy.deepcopy(aliases[n.id]), n)
+                return n
+
+        node = _copy.deepcopy(f.node)
+        for _ in range(3):       # (an alias of an alias: a few rounds settle it)
+            node = Al(node).visit(node)
+        ast.fix_missing_locations(node)
+        g = Func(node, f.qual, f.module, f.cls, f.parent)
+        g.nested = f.nested
+        g.origin = f
+    cache[key] = g
+    return g
+
+
+def inlined_view(p, f: Func, depth: int = 2) -> Func:
+    """`f` as its statements read once two kinds of indirection are written out (qualname, module, class and nested
+    defs of the original; `f` itself when there is nothing to write out):
+    * a local that only names an attribute chain (see _attr_aliases) is replaced by the chain where it is read;
+    * a call of a plain helper h (see _plain_helper) is replaced by h's body - a statement `h(args)`, a tail call
+      `return h(args)` (h's returns become f's), or a call inside a simple statement whose helper ends in its one
+      `return <expr>` (the body goes in front of the statement, the call becomes the returned value).  A parameter h
+      never re-binds that is handed a name or a constant IS that name / constant; any other parameter becomes a fresh
+      local bound to the argument (or its default) in front of the body; h's own locals are renamed apart.
+    The view says what the statements of `f` do, in order, so that a rule reading stores / header calls / raises /
+    returns of one function reads them through a local alias or an extracted helper as well.  (Shared: C20 may use it
+    for the default OPTIONS closures.)"""
+    import copy as _copy
+    cache = p.__dict__.setdefault('_c02_inline_views', {})
+    key = (f.qual, id(f.node))
+    if key in cache:
+        return cache[key]
+    counter = [0]
+    cur = [f]
+
+    def splice(h: Func, call: ast.Call, st, mode: str, d: int):
+        counter[0] += 1
+        tag = '_inl%d_' % counter[0]
+        names = [x.arg for x in h.node.args.args]
+        stored = {x.id for x in ast.walk(h.node) if isinstance(x, ast.Name) and isinstance(x.ctx, (ast.Store, ast.Del))}
+        stored |= {hd.name for hd in ast.walk(h.node) if isinstance(hd, ast.ExceptHandler) and hd.name}
+        actual: Dict[str, ast.AST] = {}
+        formal = names
+        if h.cls is not None:
+            actual[names[0]] = call.func.value
+            formal = names[1:]
+        actual.update(zip(formal, call.args))
+        actual.update({k.arg: k.value for k in call.keywords})
+        n_def = len(h.node.args.defaults)
+        for i, nm in enumerate(names):
+            if nm not in actual:
+                actual[nm] = h.node.args.defaults[i - (len(names) - n_def)]
+        subst: Dict[str, ast.AST] = {}
+        pre = []
+        for nm in names:
+            a = actual[nm]
+            # (the helper cannot re-bind a local of its caller, so a name handed to a parameter it never re-binds keeps its value)
+            if nm not in stored and isinstance(a, (ast.Name, ast.Constant)):
+                subst[nm] = a
+            else:
+                subst[nm] = ast.Name(id=tag + nm, ctx=ast.Load())
+                pre.append(ast.copy_location(ast.Assign(targets=[ast.Name(id=tag + nm, ctx=ast.Store())], value=_copy.deepcopy(a)), st))
+        for nm in stored - set(names):
+            subst[nm] = ast.Name(id=tag + nm, ctx=ast.Load())
+
+        class Sub(ast.NodeTransformer):
+            def visit_Name(self, n):
+                r = subst.get(n.id)
+                if r is None:
+                    return n
+                if isinstance(n.ctx, ast.Load):
+                    return ast.copy_location(_copy.deepcopy(r), n)
+                if isinstance(r, ast.Name):
+                    return ast.copy_location(ast.Name(id=r.id, ctx=n.ctx), n)
+                return n
+
+            def visit_ExceptHandler(self, n):
+                self.generic_visit(n)
+                r = subst.get(n.name) if n.name else None
+                if isinstance(r, ast.Name):
+                    n.name = r.id
+                return n
+
+        body = [_copy.deepcopy(s) for s in h.node.body]
+        body = [s for s in body if not (isinstance(s, ast.Expr) and isinstance(s.value, ast.Constant))]
+        ret = None
+        if mode == 'stmt' and body and isinstance(body[-1], ast.Return):
+            body = body[:-1]
+        if mode == 'value':
+            ret = ast.Name(id=tag + 'ret', ctx=ast.Load())
+            body[-1] = ast.copy_location(ast.Assign(targets=[ast.Name(id=tag + 'ret', ctx=ast.Store())], value=body[-1].value), body[-1])
+        body = [Sub().visit(s) for s in body]
+        if mode == 'tail':
+            hcfg = _cfg_of(h, p)
+            if any(l != 'ret' for (x, l) in hcfg.pred[hcfg.exit] if x in hcfg.reachable_ids):
+                body.append(ast.copy_location(ast.Return(value=ast.Constant(value=None)), st))
+        body = body or [ast.copy_location(ast.Pass(), st)]
+        body, _ch = expand(body, d + 1)
+        return pre + body, ret
+
+    def value_calls(st):
+        """Calls inside a simple statement (not under a lambda / comprehension / conditional part: those need not run once)."""
+        out = []
+
+        def rec(e, cond):
+            if isinstance(e, (ast.Lambda, ast.ListComp, ast.SetComp, ast.DictComp, ast.GeneratorExp)):
+                return
+            if isinstance(e, ast.Call) and not cond:
+                out.append(e)
+            if isinstance(e, ast.BoolOp):
+                rec(e.values[0], cond)
+                for v in e.values[1:]:
+                    rec(v, True)
+                return
+            if isinstance(e, ast.IfExp):
+                rec(e.test, cond)
+                rec(e.body, True)
+                rec(e.orelse, True)
+                return
+            for c in ast.iter_child_nodes(e):
+                rec(c, cond)
+
+        if isinstance(st, (ast.Assign, ast.AnnAssign, ast.AugAssign, ast.Expr, ast.Return)) and getattr(st, 'value', None) is not None:
+            rec(st.value, False)
+        return out
+
+    def expand(stmts, d):
+        out, changed = [], False
+        for st in stmts:
+            call, mode = None, None
+            if isinstance(st, ast.Expr) and isinstance(st.value, ast.Call):
+                call, mode = st.value, 'stmt'
+            elif isinstance(st, ast.Return) and isinstance(st.value, ast.Call):
+                call, mode = st.value, 'tail'
+            if call is not None and d < depth:
+                h = _plain_helper(p, cur[0], call, mode)
+                if h is not None:
+                    out.extend(splice(h, call, st, mode, d)[0])
+                    changed = True
+                    continue
+            if d < depth:
+                done = False
+                for c in value_calls(st):
+                    h = _plain_helper(p, cur[0], c, 'value')
+                    if h is not None:
+                        pre, ret = splice(h, c, st, 'value', d)
+
+                        class Rep(ast.NodeTransformer):
+                            def visit_Call(self, n, c=c, ret=ret):
+                                if n is c:
+                                    return ast.copy_location(ret, n)
+                                return self.generic_visit(n)
+
+                        st2 = Rep().visit(st)
+                        more, _ch = expand([st2], d + 1)
+                        out.extend(pre + more)
+                        changed = done = True
+                        break
+                if done:
+                    continue
+            for fld in ('body', 'orelse', 'finalbody'):
+                sub = getattr(st, fld, None)
+                if isinstance(sub, list) and sub and isinstance(sub[0], ast.stmt) and not isinstance(st, (ast.FunctionDef, ast.AsyncFunctionDef, ast.ClassDef)):
+                    new, ch = expand(sub, d)
+                    if ch:
+                        setattr(st, fld, new)
+                        changed = True
+            for hd in getattr(st, 'handlers', None) or []:
+                new, ch = expand(hd.body, d)
+                if ch:
+                    hd.body = new
+                    changed = True
+            out.append(st)
+        return out, changed
+
+    g = aliased_view(p, f)
+    node = g.node if g is not f else None
+    cur[0] = g
+    cand = [(st, c) for st in walk_no_nested(g.node) if isinstance(st, ast.stmt) for c in
+            ([st.value] if isinstance(st, (ast.Expr, ast.Return)) and isinstance(st.value, ast.Call) else []) + value_calls(st)]
+    if any(_plain_helper(p, g, c, m) is not None for (st, c) in cand for m in ('stmt', 'tail', 'value')):
+        if node is None:
+            node = _copy.deepcopy(f.node)
+            g2 = Func(node, f.qual, f.module, f.cls, f.parent)
+            g2.nested = f.nested
+            g2.origin = f
+            cur[0] = g2
+        # (the calls of the copy resolve like those of the original: resolution goes by name through f's module / class)
+        body, ch = expand(node.body, 0)
+        if ch:
+            node.body = body
+            ast.fix_missing_locations(node)
+            g = Func(node, f.qual, f.module, f.cls, f.parent)
+            g.nested = f.nested
+            g.origin = f
+    cache[key] = g
+    return g
